@@ -250,14 +250,15 @@ theorem filter_outcome (c : Cfg) (p : RPhase) (s : St) (hr : s.upstreamReset = f
 
 /-- a pass started at a filter of its own phase invokes that filter first -/
 theorem runRecv_first (chain : List RFilter) (p : RPhase) (s : FState) (f : RFilter)
-    (hf : chain[s.cursor]? = some f) (hp : f.phase = p) :
-    ∃ v rest, (runRecv chain p s).2 = (s.cursor, v) :: rest := by
+    (hf : chain[startOf s p]? = some f) (hp : f.phase = p) :
+    ∃ v rest, (runRecv chain p s).2 = (startOf s p, v) :: rest := by
   unfold runRecv
-  have hlt : s.cursor < chain.length := by
-    rcases Nat.lt_or_ge s.cursor chain.length with h | h
+  generalize startOf s p = st at hf ⊢
+  have hlt : st < chain.length := by
+    rcases Nat.lt_or_ge st chain.length with h | h
     · exact h
     · rw [List.getElem?_eq_none h] at hf; cases hf
-  have hd : chain.drop s.cursor = f :: chain.drop (s.cursor + 1) := by
+  have hd : chain.drop st = f :: chain.drop (st + 1) := by
     rw [List.getElem?_eq_getElem hlt] at hf
     cases hf
     exact List.drop_eq_getElem_cons hlt
@@ -267,6 +268,13 @@ theorem runRecv_first (chain : List RFilter) (p : RPhase) (s : FState) (f : RFil
   · exact ⟨_, _, rfl⟩
   · exact ⟨_, _, rfl⟩
   · exact ⟨_, _, rfl⟩
+
+/-- a kept cursor together with its phase makes the next pass of that phase start there -/
+theorem startOf_resume (s : FState) (p : RPhase) (h : s.cursor ≠ 0 → s.cphase = p) : startOf s p = s.cursor := by
+  rw [startOf_eq]
+  by_cases h0 : s.cursor = 0
+  · simp [h0]
+  · rw [if_neg]; intro ⟨_, hne⟩; exact hne (h h0).symm
 
 theorem pn_lt_ord {p q : RPhase} (h : pn p < pn q) : RPhase.ord p < RPhase.ord q := by
   cases p <;> cases q <;> simp [pn, RPhase.ord, DownFilter, DownFilterAfterRoute, DownFilterAfterChooseHost] at h ⊢
@@ -285,7 +293,8 @@ theorem pn_odd (p q : RPhase) (h1 : pn q ≤ pn p) (h2 : pn p ≤ pn q + 1) : pn
 def Link (s : St) (a : Nat × RPhase × Verdict) : Prop :=
   s.halted = true ∨ (a.2.2.status ≠ .termination ∧
     (pn a.2.1 < s.phase ∨
-     (accepted a.2.1 a.2.2.status = true ∧ s.cursor = a.1 ∧ pn a.2.1 ≤ s.phase + 1 ∧ s.phase ≤ pn a.2.1)))
+     (accepted a.2.1 a.2.2.status = true ∧ s.cursor = a.1 ∧ (s.cursor ≠ 0 → s.cphase = a.2.1) ∧
+       pn a.2.1 ≤ s.phase + 1 ∧ s.phase ≤ pn a.2.1)))
 
 structure Oinv (c : Cfg) (s : St) : Prop where
   ord : orderOK (recvObs (flat s.trace)) = true
@@ -311,6 +320,7 @@ theorem step_Oinv (c : Cfg) (s : St) (hg : Ginv c s) (ho : Oinv c s) : Oinv c (s
       have e_tr : s1.trace = s.trace := by subst hs1; rfl
       have e_ph : s1.phase = s.phase := by subst hs1; rfl
       have e_cu : s1.cursor = s.cursor := by subst hs1; rfl
+      have e_cp : s1.cphase = s.cphase := by subst hs1; rfl
       have e_f : s1.toFState = s.toFState := by subst hs1; rfl
       have e_again : s1.again = InitPhase := by
         have : s1.again = s.again := by subst hs1; rfl
@@ -321,7 +331,7 @@ theorem step_Oinv (c : Cfg) (s : St) (hg : Ginv c s) (ho : Oinv c s) : Oinv c (s
       cases hrp : recvPhaseOf s1.phase with
       | none =>
         -- no receiver filters in this `case`
-        obtain ⟨⟨evs, ht, hev⟩, hcur, _⟩ : NoPass s1 (phaseCase c s1) := by
+        obtain ⟨⟨evs, ht, hev⟩, hcur, _, hcph⟩ : NoPass s1 (phaseCase c s1) := by
           rcases phaseCase_shape c s1 with h | ⟨p, hp, _⟩
           · exact h
           · rw [hrp] at hp; cases hp
@@ -335,13 +345,14 @@ theorem step_Oinv (c : Cfg) (s : St) (hg : Ginv c s) (ho : Oinv c s) : Oinv c (s
         · rcases phaseCase_phase c s1 e_again hrp with h' | h' | h'
           · exact Or.inl h'
           · refine Or.inr ⟨hnt, ?_⟩
-            rcases h with h | ⟨hacc, hcu, h1, h2⟩
+            rcases h with h | ⟨hacc, hcu, hcp, h1, h2⟩
             · exact Or.inl (by rw [h', e_ph]; omega)
             · -- on the way back to the phase of the requesting filter
               have hne : s.phase ≠ pn a.2.1 := by
                 intro he
                 rw [e_ph, he, recvPhaseOf_pn] at hrp; cases hrp
-              exact Or.inr ⟨hacc, by rw [hcur, e_cu]; exact hcu, by rw [h', e_ph]; omega, by rw [h', e_ph]; omega⟩
+              exact Or.inr ⟨hacc, by rw [hcur, e_cu]; exact hcu, by rw [hcur, hcph, e_cu, e_cp]; exact hcp,
+                by rw [h', e_ph]; omega, by rw [h', e_ph]; omega⟩
           · refine Or.inr ⟨hnt, Or.inl ?_⟩
             have := pn_le5 a.2.1
             have h9 : 9 ≤ (phaseCase c s1).phase := h'
@@ -362,12 +373,12 @@ theorem step_Oinv (c : Cfg) (s : St) (hg : Ginv c s) (ho : Oinv c s) : Oinv c (s
         generalize hgq : filterPass c q s1 = g at o1 o2 o3
         generalize hrr : afterPE c g = r at o1 o2 o3
         have gF : g.toFState = (runRecv c.recv q s.toFState).1 := by rw [← hgq, filterPass_toFState, e_f]
-        have rT : r.trace = s.trace ++ [.rpass q s.cursor (runRecv c.recv q s.toFState).2] := by
-          rw [← hrr, (afterPE_trace_cursor c g).1, ← hgq, filterPass_trace, e_tr, e_cu, e_f]
+        have rT : r.trace = s.trace ++ [.rpass q (startOf s.toFState q) (runRecv c.recv q s.toFState).2] := by
+          rw [← hrr, (afterPE_trace_cursor c g).1, ← hgq, filterPass_trace, e_tr, e_f]
         generalize hl : (runRecv c.recv q s.toFState).2 = l at rT
         have hT : recvObs (flat r.trace) = recvObs (flat s.trace) ++ triples q l := by
           rw [rT, flat_snoc, recvObs_append, recvObs_flatEv]
-        have hlast := recvLoop_last q (c.recv.drop s.toFState.cursor) s.toFState.cursor s.toFState hcom.again
+        have hlast := recvLoop_last q (c.recv.drop (startOf s.toFState q)) (startOf s.toFState q) s.toFState hcom.again
         have hmem := runRecv_mem c.recv q s.toFState
         rw [hl] at hmem
         have hreg : ∀ a ∈ recvObs (flat r.trace), ∃ f, c.recv[a.1]? = some f ∧ f.phase = a.2.1 := by
@@ -390,7 +401,7 @@ theorem step_Oinv (c : Cfg) (s : St) (hg : Ginv c s) (ho : Oinv c s) : Oinv c (s
               cases l with
               | nil => simp [triples] at hb
               | cons x r' => simp [triples] at hb; rw [← hb]
-            rcases h with h | ⟨hacc, hcu, h1, h2⟩
+            rcases h with h | ⟨hacc, hcu, hcp, h1, h2⟩
             · -- the previous pass was of an earlier phase
               have hlt : pn a.2.1 < pn q := by rw [← hphq]; exact h
               have hne : (a.2.1 == b.2.1) = false := by
@@ -404,15 +415,16 @@ theorem step_Oinv (c : Cfg) (s : St) (hg : Ginv c s) (ho : Oinv c s) : Oinv c (s
             · -- re-run of the same phase: this pass starts at the requesting filter
               have hpq : a.2.1 = q := pn_inj (pn_odd a.2.1 q (by rw [← hphq]; exact h2) (by rw [← hphq]; exact h1))
               obtain ⟨f, hf, hfp⟩ := ho.reg a (List.mem_of_getLast? ha)
-              have hfirst := runRecv_first c.recv q s.toFState f (by rw [show s.toFState.cursor = a.1 from hcu]; exact hf)
-                (by rw [hfp, hpq])
+              have hst : startOf s.toFState q = a.1 := by
+                rw [startOf_resume s.toFState q (by rw [← hpq]; exact hcp)]; exact hcu
+              have hfirst := runRecv_first c.recv q s.toFState f (by rw [hst]; exact hf) (by rw [hfp, hpq])
               obtain ⟨v, rest, hvr⟩ := hfirst
               rw [hl] at hvr
               rw [hvr] at hb
               simp [triples] at hb
               rw [← hb]
               rw [hpq] at hacc
-              simp [pairOK, hpq, hacc, hnt, hcu]
+              simp [pairOK, hpq, hacc, hnt, hst]
         have hord : orderOK (recvObs (flat r.trace)) = true := by
           rw [hT, orderOK_append, ho.ord, hord_l]
           simp only [Bool.and_self, Bool.true_and]
@@ -447,13 +459,14 @@ theorem step_Oinv (c : Cfg) (s : St) (hg : Ginv c s) (ho : Oinv c s) : Oinv c (s
               have := pn_le5 a.2.1
               have h9 : 9 ≤ r.phase := h'
               omega
-            · rcases h with h | ⟨hacc, hcu, h1, h2⟩
+            · rcases h with h | ⟨hacc, hcu, hcp, h1, h2⟩
               · exact Or.inr ⟨hnt, Or.inl (by rw [h', e_ph]; omega)⟩
               · -- impossible: the pass would have invoked the requesting filter
                 have hpq : a.2.1 = q := pn_inj (pn_odd a.2.1 q (by rw [← hphq]; exact h2) (by rw [← hphq]; exact h1))
                 obtain ⟨f, hf, hfp⟩ := ho.reg a (List.mem_of_getLast? ha)
-                obtain ⟨v, rest, hvr⟩ := runRecv_first c.recv q s.toFState f
-                  (by rw [show s.toFState.cursor = a.1 from hcu]; exact hf) (by rw [hfp, hpq])
+                have hst : startOf s.toFState q = a.1 := by
+                  rw [startOf_resume s.toFState q (by rw [← hpq]; exact hcp)]; exact hcu
+                obtain ⟨v, rest, hvr⟩ := runRecv_first c.recv q s.toFState f (by rw [hst]; exact hf) (by rw [hfp, hpq])
                 rw [hl] at hvr; cases hvr
             · exact absurd gA hne
         | cons x l' =>
@@ -488,12 +501,23 @@ theorem step_Oinv (c : Cfg) (s : St) (hg : Ginv c s) (ho : Oinv c s) : Oinv c (s
                   have h1 : (runRecv c.recv q s.toFState).2.getLast? = some iv' := hlv'
                   rw [hl, hlv] at h1; cases h1; rfl
                 subst e
-                refine Or.inr ⟨hterm, Or.inr ⟨hacc, ?_, ?_, ?_⟩⟩
+                have rcp : r.cphase = g.cphase := by rw [← hrr]; exact (afterPE_trace_cursor c g).2.2.2
+                refine Or.inr ⟨hterm, Or.inr ⟨hacc, ?_, ?_, ?_, ?_⟩⟩
                 · show r.toFState.cursor = iv'.1
                   have : r.cursor = g.cursor := o1
                   rw [show r.toFState.cursor = r.cursor from rfl, this]
                   show g.toFState.cursor = iv'.1
                   rw [gF]; exact hcur
+                · intro hne
+                  rw [rcp]
+                  show g.toFState.cphase = q
+                  rw [gF]
+                  apply recvLoop_cphase
+                  have : r.cursor = g.cursor := o1
+                  rw [this] at hne
+                  have hne' : g.toFState.cursor ≠ 0 := hne
+                  rw [gF] at hne'
+                  exact hne'
                 · show pn q ≤ r.phase + 1
                   rw [h']; show pn q ≤ g.toFState.again + 1; rw [gF]
                   have : (runRecv c.recv q s.toFState).1.again + 1 = pn q := hag
